@@ -521,7 +521,7 @@ def indent_calls() -> typing.List[typing.Tuple[str, str]]:
             call = "indent" + ("(" + ", ".join(args) + ")" if args else "")
             if call not in seen:
                 seen.add(call)
-                cls = f"first={_jlit(f) if f is not None else 'default'},blank={_jlit(b) if b is not None else 'default'}"
+                cls = f"first={_jlit(f)},blank={_jlit(b)}"  # the effective values (both default to false)
                 out.append((call, cls + (",width=0" if w == 0 else "")))
     return out
 
@@ -533,10 +533,12 @@ def _literal(text: str) -> typing.Optional[str]:
     return "'" + "".join(ch if " " <= ch <= "~" else "\\x%02x" % ord(ch) for ch in text) + "'"
 
 
-def value_class(v: FVal) -> str:
-    if not isinstance(v.value, str):
+def value_class(v: FVal, carrier: str = "expr") -> str:
+    """Class of the text the filter receives (goes into the violation signature)."""
+    if not isinstance(v.value, str) and carrier in ("expr", "literal"):
         return "non_string"
-    lines = v.value.splitlines()
+    text = str(v.value)
+    lines = ("\n" + text + "\n" if carrier == "macro_body_newline" else text).splitlines()
     if not lines:
         return "empty"
     if lines[0] == "":
@@ -582,7 +584,7 @@ def of_eval_case(case: dict) -> typing.Optional[typing.Tuple[dict, str]]:
         "kind": kind,
         "filter": case["filter"],
         "args": case["args"],
-        "value": value_class(v),
+        "value": value_class(v, case["carrier"]),
         "markup": bool(v.markup or (ae and case["carrier"] not in ("expr", "literal"))),
     }
     what = (
@@ -614,7 +616,7 @@ def of_work(items: typing.List[dict]) -> dict:
                     st["nontrivial"] += 1
                 # oracle side (vacuity guards): what STOCK does with the interesting combinations
                 if item["filter"] == "indent" and isinstance(v.value, str):
-                    if "first=true" in item["args"] and value_class(v) in ("empty", "first_line_empty") and s[1][1:2] == " ":
+                    if "first=true" in item["args"] and value_class(v, item["carrier"]) in ("empty", "first_line_empty") and s[1][1:2] == " ":
                         st["expected_first_line_indented_although_empty"] += 1
                     if "blank=true" in item["args"] and " \n" in s[1] and " \n" not in v.value:
                         st["expected_blank_line_indented"] += 1
